@@ -325,10 +325,14 @@ Proof.
   destruct (Heur_facts.remove_first_spec _ _ _ Er) as (_ & R2 & _ & R4).
   destruct (R4 (seq_NoDup N0 0)) as [R5 R6].
   assert (R0 : RInv N0 unv [] [] O 0).
-  { constructor; simpl; auto.
+  { constructor.
     - constructor.
+    - simpl. constructor.
+    - exact R5.
     - intros n Hn. pose proof (R2 n Hn) as Hs. apply in_seq in Hs.
       destruct (Nat.eq_dec n 0) as [->|]; [contradiction|lia].
+    - exact R6.
+    - exact eq_refl.
     - intros a [].
     - intros j Hj. unfold cnt. simpl.
       assert (Hin : In j unv).
@@ -365,9 +369,8 @@ Proof.
     - intros k Hk. rewrite Lx in Hk. pose proof Hk as Hk'. rewrite num_variables_length in Hk'.
       destruct (nth_error (vars I2) k) as [v|] eqn:Ev'; [|apply nth_error_None in Ev'; lia].
       rewrite (Hx k v Hk Ev'). unfold indicator.
-      rewrite (nth_indep _ 0 ((fun v0 => if existsb (var_eqb v0) used2 then 1 else 0) v)) by (rewrite map_length; exact Hk').
-      rewrite map_nth. rewrite (nth_error_nth _ _ v Ev'). rewrite nth_repeat.
-      destruct (existsb (var_eqb v) used2); reflexivity. }
+      erewrite (nth_error_nth (map _ (vars I2)) k 0); [|rewrite nth_error_map, Ev'; reflexivity].
+      rewrite nth_repeat. destruct (existsb (var_eqb v) used2); reflexivity. }
   assert (Hbin : binary x2).
   { rewrite Ex. unfold indicator, binary. apply Forall_forall. intros z Hz. apply in_map_iff in Hz.
     destruct Hz as (v & <- & _). destruct (existsb _ _); auto. }
@@ -388,7 +391,7 @@ Proof.
   assert (Hcnt : forall j, (1 <= j < N0)%nat -> cnt (into_node j) used2 = 1%nat).
   { intros j Hj. rewrite U2, (IN j Hj). reflexivity. }
   split; [exact Hcnt|]. split; [exact Ex|]. split; [rewrite Lx; reflexivity|]. split; [exact Hbin|].
-  split; [exact Hperm|]. split; [|split; [reflexivity|exact Hnodes]].
+  split; [exact Hperm|]. split; [|split; reflexivity].
   apply local_iff; [exact Hg|rewrite Lx; reflexivity|exact Hbin|].
   apply (local_of_walks I2 x2 routes); [rewrite <- U2; exact Hperm|exact W|].
   intros j Hj. cbn [ig I2] in Hj. rewrite Hnodes in Hj. rewrite <- U2. apply Hcnt. exact Hj.
@@ -402,10 +405,10 @@ Proof.
   destruct (arc_vehicles (Heur.max_vehicles (ig I)) I unv []) as [[unv1 used1]|e] eqn:Ev.
   - destruct (arc_dummies high (ig I) (igrid I) unv1 used1) as [[g2 used2]|e] eqn:Ed.
     + destruct (mark_vars _ used2 _) as [x|e] eqn:Em; [discriminate|].
-      intros E; inversion E; subst e. revert Em. generalize (repeat 0 (num_variables (mkInst g2 (igrid I)))).
+      intros E; inversion E; subst e. clear Ed Ev. revert Em. generalize (repeat 0 (num_variables (mkInst g2 (igrid I)))).
       induction used2 as [|a rest IH]; intros x0; [discriminate|]. cbn [mark_vars].
       destruct (get_var_index _ a); [apply IH|discriminate].
-    + intros E; inversion E; subst e. revert Ed. generalize (ig I) used1.
+    + intros E; inversion E; subst e. clear Ev. revert Ed. generalize (ig I) used1.
       induction unv1 as [|n us IH]; intros g used; [discriminate|]. cbn [arc_dummies].
       destruct (nth_error (names g) 0) as [dn|]; [|discriminate].
       destruct (nth_error (names g) n) as [nn|]; [|discriminate].
@@ -414,11 +417,11 @@ Proof.
       { intros ga o d c. unfold add_arc_assert, add_arc, add_arc_gen.
         destruct (index_of o (names ga)); [|discriminate]. destruct (index_of d (names ga)); [|discriminate].
         match goal with |- context [if ?c then Ok _ else Ok _] => destruct c end; discriminate. }
-      destruct (add_arc_assert g dn nn high) as [g1|e] eqn:E1; [|intros E; inversion E; subst; exact (HA _ _ _ _ E1)].
+      destruct (add_arc_assert g dn nn high) as [g1|e] eqn:E1; [|intros E'; inversion E'; subst; exact (HA _ _ _ _ E1)].
       destruct (tp (mkInst g1 (igrid I))) as [|t0 tps]; [discriminate|].
       destruct (arrival_time (mkInst g1 (igrid I)) t0 O n) as [a1 [|]]; [|discriminate].
       destruct (if dict_mem (n, O) (arcs g1) then Ok g1 else add_arc_assert g1 nn dn high) as [g3|e] eqn:E2.
       * destruct (arrival_time (mkInst g3 (igrid I)) a1 n O) as [a2 [|]]; [apply IH|discriminate].
-      * intros E; inversion E; subst. destruct (dict_mem (n, O) (arcs g1)); [discriminate|]. exact (HA _ _ _ _ E2).
+      * intros E'; inversion E'; subst. destruct (dict_mem (n, O) (arcs g1)); [discriminate|]. exact (HA _ _ _ _ E2).
   - intros E; inversion E; subst e. exact (arc_vehicles_fuel I _ _ _ Ev).
 Qed.
